@@ -153,3 +153,39 @@ impl<T: VVal> VVal for Box<T> {
    fn vshow(&self) -> String { (**self).vshow() }
    fn vparse(s: &str) -> Self { Box::new(T::vparse(s)) }
 }
+
+/// A max-lattice over i32 whose operations (join, meet, clone) pass through a perturbation point, like an expensive user-defined
+/// lattice would: it widens every window between reading a lattice value and writing it back.
+#[derive(PartialEq, Eq, Hash, PartialOrd, Ord, Debug)]
+pub struct SlowMax(pub i32);
+
+impl Clone for SlowMax {
+   fn clone(&self) -> Self {
+      ascent::verif::perturb(ascent::verif::site::BYODS_INSERT + 1);
+      SlowMax(self.0)
+   }
+}
+
+impl ascent::Lattice for SlowMax {
+   fn meet_mut(&mut self, other: Self) -> bool {
+      ascent::verif::perturb(ascent::verif::site::BYODS_INSERT + 2);
+      let changed = other.0 < self.0;
+      if changed {
+         self.0 = other.0;
+      }
+      changed
+   }
+   fn join_mut(&mut self, other: Self) -> bool {
+      ascent::verif::perturb(ascent::verif::site::BYODS_INSERT + 2);
+      let changed = other.0 > self.0;
+      if changed {
+         self.0 = other.0;
+      }
+      changed
+   }
+}
+
+impl VVal for SlowMax {
+   fn vshow(&self) -> String { self.0.to_string() }
+   fn vparse(s: &str) -> Self { SlowMax(s.parse().unwrap()) }
+}
